@@ -472,6 +472,28 @@ func c17Chmod(u *vfUnit) {
 			}
 		}
 	}
+	// the documented extra: a mode whose special bits are given the POSIX way (04000/02000/01000 in the numeric
+	// value, as in Chmod(p, 04755)) is passed on as such — package os would ignore those bits, so the twin is
+	// driven with the raw system call
+	for v := 0o1000; v < 0o10000; v += 0o111 {
+		for _, via := range []string{"Client.Chmod", "File.Chmod"} {
+			os.Chmod(a, 0o600)
+			os.Chmod(b, 0o600)
+			var e1 error
+			if via == "Client.Chmod" {
+				e1 = sess.C.Chmod(a, os.FileMode(v))
+			} else {
+				e1 = f.Chmod(os.FileMode(v))
+			}
+			e2 := syscall.Chmod(b, uint32(v))
+			sa, _ := os.Lstat(a)
+			sb, _ := os.Lstat(b)
+			u.Count("chmod_values", 1)
+			if (e1 == nil) != (e2 == nil) || sa.Mode() != sb.Mode() {
+				u.Violation(fmt.Sprintf("chmod-posix-bits:%s:special=%#o", via, v&0o7000), fmt.Sprintf("%s(os.FileMode(%#o)): file mode %v (err %v); chmod(2) with that value gives %v (err %v)", via, v, sa.Mode(), e1, sb.Mode(), e2), map[string]any{"value": v, "via": via})
+			}
+		}
+	}
 	f.Close()
 	if msg := sess.Close(); msg != "" {
 		u.Violation("chmod:close", msg, nil)
